@@ -1,3 +1,4 @@
+import NdonnxVerif.Driver.Dtype
 import NdonnxVerif.Driver.Index
 /-! Line-protocol driver: one request per line on stdin, one answer per line on stdout. -/
 open Ndx.Drv
@@ -7,6 +8,11 @@ def dispatch (line : String) : String :=
   | [] => "bad-op"
   | cmd :: args =>
     match cmd with
+    | "rt" => cmdRt args
+    | "scalar" => cmdScalar args
+    | "fnlaw" => cmdFnLaw args
+    | "cast" => cmdCast args
+    | "cancast" => cmdCanCast args
     | "getitem" => cmdGetitem args
     | "getitem_spec" => cmdGetitemSpec args
     | "getitem_mask" => cmdGetitemMask false args
